@@ -182,7 +182,7 @@ where
         .first_step
         .map(|h| h.abs())
         .filter(|h| *h <= (xend - x0).abs());
-    let mut default_solout = DefaultSolOut::new(f, options.t_eval.clone(), options.dense_output, first_output_step, x0, n_states);
+    let mut default_solout = DefaultSolOut::new(f, options.t_eval.clone(), options.dense_output, first_output_step, x0, xend - x0, n_states);
 
     // Dispatch by method
     let result = match options.method {
